@@ -238,6 +238,28 @@ func TestC15(t *testing.T) {
 				w.trace = append(w.trace, w.sw.trace...)
 				w.sw.trace = nil
 			},
+			// somebody opens report forms about the providers that hold a customer's file, and the customer then deletes the
+			// file: the forms stay behind (nothing cleans them up), about provers of a file that is gone. A provider's
+			// collateral has nothing to do with any of it
+			"reportedFileDeleted": func(rt *rapid.T) {
+				if len(w.sw.files) == 0 {
+					rt.Skip()
+				}
+				w.sw.setParams(func(p *storagetypes.Params) { p.AttestFormSize, p.AttestMinToPass = 1, 1 })
+				f := w.sw.files[rapid.IntRange(0, len(w.sw.files)-1).Draw(rt, "file")]
+				opened := 0
+				for _, pr := range w.sw.listedProvers(f) {
+					r := w.f.Exec(newMsgRequestReportForm(chain.Acc(20).Bech, pr, f.Merkle, f.Owner, f.Start))
+					if _, found := w.c.App.StorageKeeper.GetReportForm(w.f.Ctx, pr, f.Merkle, f.Owner, f.Start); found && r.OK() {
+						opened++
+					}
+				}
+				r := w.f.Exec(&storagetypes.MsgDeleteFile{Creator: f.Owner, Merkle: f.Merkle, Start: f.Start})
+				w.trace = append(w.trace, fmt.Sprintf("h=%d %d report form(s) opened about the provers of %s, then the owner deletes the file -> %s", w.f.Height(), opened, f.id(), r))
+				if opened > 0 && r.OK() {
+					rec.Count("report-forms-left-behind-by-a-deleted-file")
+				}
+			},
 			"blocks": func(rt *rapid.T) {
 				n := rapid.IntRange(1, 14).Draw(rt, "blocks")
 				proving := rapid.Bool().Draw(rt, "keepProving")
